@@ -4,12 +4,7 @@ import os, sys, json, importlib
 ROOT = os.path.dirname(os.path.dirname(os.path.abspath(__file__)))
 sys.path.insert(0, ROOT)
 props = [json.loads(l) for l in open(os.path.join(ROOT, "properties.jsonl"))]
-NA = {
-    "C06": "end-to-end accuracy bound (0.015 Frobenius) of ICP + RANSAC on a 10^2-10^3 point scan: kd-tree, per-point "
-           "eigen-decompositions, std::sort/unique, mt19937-driven sampling and up to 10^4 JacobiSVD calls cannot be encoded "
-           "within any solver bound, and the clause is a numerical tolerance the solver cannot bound; building blocks are "
-           "covered under C04, C05, C07, C08, C09 (DESIGN.md section 6)",
-}
+NA = {}
 checks = []
 na = []
 for p in props:
